@@ -314,6 +314,42 @@ def run(tier: str) -> int:
                                       {"trace": t["info"], "order": order_label, "records_ingested": k + 1, "tailing": got, "fresh": want,
                                        "records": order[:k + 1]})
                     break
+        # --- how the records arrive (a list, a one-shot iterator, a lazily merged stream, chunks, one by one) is not part of the
+        #     set of records: every delivery of the same prefix must give the same verdicts
+        import heapq
+        import itertools
+        for k in sorted({len(recs), len(recs) // 2, rnd.randrange(0, len(recs) + 1)}):
+            want = None
+            for mode in ("list", "generator", "iterator", "tuple", "chain", "merge", "chunks", "one-by-one"):
+                a = Agg()
+                pre = recs[:k]
+                if mode == "list":
+                    a.ingest_many(list(pre))
+                elif mode == "generator":
+                    a.ingest_many(r for r in pre)
+                elif mode == "iterator":
+                    a.ingest_many(iter(pre))
+                elif mode == "tuple":
+                    a.ingest_many(tuple(pre))
+                elif mode == "chain":
+                    a.ingest_many(itertools.chain(pre[:k // 2], pre[k // 2:]))
+                elif mode == "merge":
+                    a.ingest_many(x for _, x in heapq.merge(enumerate(pre[0::2]), ((i + 0.5, x) for i, x in enumerate(pre[1::2])), key=lambda t: t[0]))
+                elif mode == "chunks":
+                    for c in range(0, k, 3):
+                        a.ingest_many(iter(pre[c:c + 3]))
+                else:
+                    for r in pre:
+                        a.ingest(r)
+                got = ([run_view(a.finalize_run(x)) for x in runs], [launch_view(a.finalize_launch(l, at)) for (l, at) in launches])
+                stats["deliveries"] = stats.get("deliveries", 0) + 1
+                if want is None:
+                    want = got
+                elif got != want:
+                    fld = next((k2 for part in (0, 1) for x, y in zip(got[part], want[part]) for k2 in x if x[k2] != y.get(k2)), "?")
+                    rep.add_violation(f"delivery-dependent-verdict:{mode}:{fld}",
+                                      f"the same {k} records give different verdicts when handed to ingest_many as a {mode} than as a list",
+                                      {"trace": t["info"], "records": pre, "delivery": mode, "as_list": want, "as_delivered": got})
         # --- order independence on the real code
         base = real_verdicts(recs, runs, launches)
         for p in range(n_perm):
